@@ -341,6 +341,8 @@ def check_style(m: M, res, rng: random.Random):
             detail["right"] = right.describe()
         if name == "update_link":
             detail["from"] = nolink.describe()
+        if name == "without_color":
+            detail["from"] = coloured.describe()
         if r[0] != "ok":
             _fail(res, eq_clause, "construction route raised", key, detail, text, r[1], size)
             continue
@@ -352,7 +354,7 @@ def check_style(m: M, res, rng: random.Random):
         _count(res, h_clause)
         found = {s: 1}.get(x)
         if hash(x) != hash(s) or found != 1:
-            _fail(res, h_clause, "equal styles with different hashes (route %s vs keywords)" % name, key, detail, {"equal": True, "hash": hash(s)}, {"equal": True, "hash": hash(x), "found_as_dict_key": found == 1}, size)
+            _fail(res, h_clause, "equal styles with different hashes (route %s vs keywords)" % name, key, detail, {"equal": True, "same_hash": True, "found_as_dict_key": True}, {"equal": True, "same_hash": hash(x) == hash(s), "found_as_dict_key": found == 1}, size)
 
 
 # ---------------------------------------------------------------------------------------------------------------
